@@ -650,6 +650,18 @@ impl<'a> Run<'a> {
     } else {
       0
     };
+    // One faulted operation in four has DIRTY failures among its failures: `insert_key_id`, `delete_key_id` or `delete`
+    // takes effect in the store and then reports an error (a lost acknowledgement; what `StrongholdStorage` did before
+    // it learnt to roll back when its snapshot cannot be written). Other calls named by the bits fail cleanly.
+    let dirty: u32 = if mask != 0 && ctx::choose(4) == 0 {
+      if ctx::choose(2) == 0 {
+        mask
+      } else {
+        mask & ctx::choose(64) as u32
+      }
+    } else {
+      0
+    };
     // ---- target classification (for coverage and signatures) ----
     let (target_kind, refs, target_method): (String, usize, Option<VerificationMethod>) = match op {
       Op::Purge { id, .. } => {
@@ -734,6 +746,7 @@ impl<'a> Run<'a> {
     let result: RefCell<Option<Result<String, JwkStorageDocumentError>>> = RefCell::new(None);
     let steps;
     {
+      self.ctl.dirty.set(dirty);
       self.ctl.begin_op(mask);
       ks::set_hook_yields(true);
       let storage = &self.storage;
@@ -844,7 +857,7 @@ impl<'a> Run<'a> {
       Err(e) => format!("Err({})", err_kind(e)),
     };
     ctx::trace(format!(
-      "op{} doc{doc_idx}({doc_kind}) {op:?} mask={mask:06b} calls=[{summary}] join={join_order} bystander={} -> {outcome}",
+      "op{} doc{doc_idx}({doc_kind}) {op:?} mask={mask:06b} dirty={dirty:06b} calls=[{summary}] join={join_order} bystander={} -> {outcome}",
       self.step, with_bystander
     ));
     ctx::cover(format!(
@@ -994,12 +1007,20 @@ impl<'a> Run<'a> {
           );
         }
         if undo {
-          // exactly one stray key is licensed, nothing else
+          // exactly one stray key is licensed - and, when a failure was dirty, one stray key id (the entry that
+          // `insert_key_id` recorded before it reported its failure and that could not be removed again) -, nothing else
           let extra: Vec<&String> = post_snap.keys.difference(&base.keys).collect();
           let mut want = base.clone();
           if extra.len() == 1 {
             want.keys.insert(extra[0].clone());
             want.key_count += 1;
+          }
+          if dirty != 0 {
+            let extra_ids: Vec<(&String, &String)> = post_snap.key_ids.iter().filter(|(d, _)| !base.key_ids.contains_key(*d)).collect();
+            if extra_ids.len() == 1 {
+              want.key_ids.insert(extra_ids[0].0.clone(), extra_ids[0].1.clone());
+              want.key_id_count += 1;
+            }
           }
           if want != post_snap {
             ctx::violation(
@@ -1082,6 +1103,13 @@ impl<'a> Run<'a> {
               b.key_ids.remove(&dh);
               b.key_id_count -= 1;
               allowed.push(b);
+              if dirty != 0 {
+                // both deletions took effect and both reported a failure: nothing is left to revert to
+                let mut c = a.clone();
+                c.key_ids.remove(&dh);
+                c.key_id_count -= 1;
+                allowed.push(c);
+              }
             }
           }
           if !doc_ok || !allowed.contains(&post_snap) {
@@ -1261,7 +1289,8 @@ impl Engine for StorEngine {
        own/foreign references, foreign-DID embedded methods, ids sharing a fragment under different DIDs) sharing one \
        Storage over the real in-memory stores behind fault-injecting wrappers, and a history of up to 12 operations \
        (generate_method, purge_method, insert/remove method, attach/detach, insert/remove service) over 2-5 fragments x \
-       2 DIDs. For every storage-backed call the tape draws a fault mask over storage-call occurrences (clean failures), \
+       2 DIDs. For every storage-backed call the tape draws a fault mask over storage-call occurrences (clean failures; in one faulted \
+       operation in four some failures of insert_key_id / delete_key_id / delete are DIRTY: the call takes effect and reports an error), \
        yields at every wrapper/hook point (so the two deletes under join! complete in either order) and an optional \
        concurrent bystander client. Armed property {p}. Non-trivial: at least one injected storage failure fired; \
        distinct = distinct hashes of (task picks, yields, fault positions). Coverage classes: op x document type x \
@@ -1278,11 +1307,11 @@ impl Engine for StorEngine {
     ]
   }
   fn stub_components(&self, _p: &str) -> Vec<&'static str> {
-    vec!["none (wrappers add clean failures, yields and recording around the real stores)"]
+    vec!["none (wrappers add clean and dirty failures, yields and recording around the real stores)"]
   }
   fn assumptions(&self, p: &str) -> Vec<String> {
     let mut v = vec![
-      "storage failures are clean (an error is returned and the store is not altered), as the storage traits require; dirty failures are not injected".to_owned(),
+      "storage failures are clean (an error is returned and the store is not altered) or, for insert_key_id / delete_key_id / delete, dirty (the store is altered and an error is returned: a lost acknowledgement). generate / insert never fail dirty (the caller gets no key id and cannot take the effect back: that is the store's own obligation, checked on StrongholdStorage in the thorough tier), and in an operation with dirty failures injected errors are of the transient kinds (a store that answers 'not found' for an entry it holds is lying, not failing)".to_owned(),
       "after an error (other than a reported failed undo) the document must equal its pre-state exactly, including the order of entries ('observably unchanged'); after success only the set of entries is compared; IotaDocument metadata timestamps are not compared".to_owned(),
     ];
     if p == "C04" {
@@ -1298,6 +1327,9 @@ impl Engine for StorEngine {
       "fault.storage.fail_clean.delete",
       "fault.storage.fail_clean.get_key_id",
       "fault.storage.fail_clean.delete_key_id",
+      "fault.storage.fail_dirty.insert_key_id",
+      "fault.storage.fail_dirty.delete",
+      "fault.storage.fail_dirty.delete_key_id",
       "fault.storage.latency_yield",
       "probe.undo_operation_failed",
       "probe.rollback_after_fault",
